@@ -229,7 +229,8 @@ def pass (L : Lits α) (P : Params α) (s : State α) (o : PassOracle α) : Sum 
 structure Setup (α : Type) where
   x0 : α
   xend : α
-  /-- `h_abs` before the final clamp: |first_step|, or the magnitude of the automatic guess limited to the span -/
+  /-- `h_abs` before the final clamp: |first_step|, or the magnitude of the automatic guess limited to the span, raised to
+      `10·ε·|x0|` (the resolution of the time axis; applied in bdf.rs before the value is traced, modelled in `BdfNum`) -/
   hAbs0 : α
   maxStep : Option α
   minStep : Option α
